@@ -17,7 +17,7 @@ META = {
     "design_ref": "§7 C41, §3.3",
 }
 
-KINDS = ("reload-error", "reload-showgrants", "reload-state", "reload-matrix")
+KINDS = ("reload-error", "reload-showgrants", "reload-showgrants-dyn", "reload-state", "reload-matrix")
 
 
 def relevant(m):
